@@ -83,6 +83,14 @@ package airgapped
 //@   ensures[C11.report.event] result == nil && old(o.Type) == "state_dkg_responses_await_confirmations" ==> o.Event == "event_dkg_response_confirm_canceled_by_error"
 //@   ensures[C11.report.event] result == nil && old(o.Type) == "state_dkg_master_key_await_confirmations" ==> o.Event == "event_dkg_master_key_confirm_canceled_by_error"
 
+// a private deal of any length - truncated, empty, a placeholder text - is answered with an error, never with a fault
+// (kyber's ecies.Decrypt slices the ephemeral point off the ciphertext without a length check)
+//@ func (*Machine).decryptDataFromParticipant
+//@   safety C18
+//@   safetykinds nil dereference, index out of range, slice bounds
+//@   requires am != nil && am.baseSuite != nil
+//@   modifies *
+
 // a replay re-executes the logged operations in log order without logging them again (several restarts in one
 // ceremony must not make the log grow)
 //@ func (*Machine).ReplayOperationsLog
